@@ -41,6 +41,7 @@ type Machine struct {
 	newBelow bool
 	tableVals []string
 	seedBytes []int
+	namedResults []types.Object
 	bigStrings []string
 	mu        sync.Mutex
 	pendingBelow []pushRecTag
@@ -66,6 +67,7 @@ type Outcome struct {
 	EndsBuffer bool
 	OffExact   bool
 	Why        string
+	Thrown     bool
 }
 
 // findWork locates the dispatch loop: a method of T whose body has
@@ -170,6 +172,13 @@ func ExtractMachine(prog *Program, rel, typeName string, rootNames []string) (*M
 	if m.bufVar == nil {
 		return nil, fmt.Errorf("%s: dispatch function has no []byte parameter", m.Name)
 	}
+	if fd.Type.Results != nil {
+		for _, fl := range fd.Type.Results.List {
+			for _, n := range fl.Names {
+				m.namedResults = append(m.namedResults, info.Defs[n])
+			}
+		}
+	}
 	// loop variable
 	if as, ok := loop.Init.(*ast.AssignStmt); ok && len(as.Lhs) == 1 {
 		if id, ok := as.Lhs[0].(*ast.Ident); ok {
@@ -227,6 +236,7 @@ func ExtractMachine(prog *Program, rel, typeName string, rootNames []string) (*M
 		addLike: map[*types.Func]bool{}, bufVar: m.bufVar, offVar: m.offVar, maxDepth: 6,
 		methods: map[*types.Func]*ast.FuncDecl{}, recvOf: map[*ast.FuncDecl]types.Object{}}
 	m.in = in
+	in.dispatchSw = sw
 	in.tableID = map[string]int{}
 	{
 		var names []string
@@ -433,7 +443,8 @@ func (m *Machine) classifyFields() {
 						t := fieldType[f]
 						if b, ok := t.Underlying().(*types.Basic); ok {
 							if b.Info()&types.IsInteger != 0 {
-								if isConstExpr(pair[1]) {
+								// ints: only when compared with a constant; single bytes always (finite)
+								if isConstExpr(pair[1]) || b.Kind() == types.Uint8 || b.Kind() == types.Int8 {
 									relevant[f] = true
 								}
 							} else {
@@ -715,6 +726,9 @@ func (m *Machine) enterWorkWith(in *Interp, s *State) []*State {
 	if m.lastVar != nil {
 		n.locals[m.lastVar] = vTop
 	}
+	for _, o := range m.namedResults {
+		n.locals[o] = zeroVal(o.Type())
+	}
 	n.cur = -1
 	var out []*State
 	for _, e := range in.execList(m.prologue, n) {
@@ -770,10 +784,23 @@ func (m *Machine) outcome(e Exit, eof bool) Outcome {
 	o := Outcome{Events: e.st.events, Pops: e.st.popped, Pushes: e.st.pushed, Notes: e.st.notes, ReadStale: e.st.readStale}
 	switch e.ctl {
 	case cPanic:
+		if strings.HasPrefix(e.why, "explicit panic") {
+			// a deliberate panic(...) is this front-end's way of raising an error (recovered by its entry point; rule E-recover)
+			o.Kind = "error"
+			o.ErrOff = e.st.errArg
+			o.ErrPos = e.st.errPos
+			o.Thrown = true
+			return o
+		}
 		o.Kind = "panic"
 		o.Why = e.why
 		return o
 	case cReturn:
+		if len(e.ret) == 0 && len(m.namedResults) > 0 {
+			for _, o := range m.namedResults {
+				e.ret = append(e.ret, e.st.locals[o])
+			}
+		}
 		if len(e.ret) >= 1 {
 			switch e.ret[len(e.ret)-1].K {
 			case kNonNil:
@@ -861,48 +888,63 @@ func (m *Machine) outcome(e Exit, eof bool) Outcome {
 		for p := 1; p < sc.Base; p++ {
 			o.Items = append(o.Items, item(p))
 		}
-		r := off.A - (sc.Base - 1)
+		r := off.A - (sc.Base - 1) // positions consumed after the last passing byte
 		pass := ConsItem{Set: sc.Pass}
+		extra := func(n int) {
+			for j := 0; j < n; j++ {
+				switch {
+				case j == 0 && sc.Outcome == 'B':
+					it := ConsItem{Rep: '1'}
+					it.Set[sc.Break] = true
+					o.Items = append(o.Items, it)
+				case sc.Outcome == 'X':
+					// nothing follows an exhausted scan: the cursor is past the buffer
+					o.EndsBuffer = true
+					o.OffExact = false
+					return
+				default:
+					o.Items = append(o.Items, any1)
+				}
+			}
+		}
 		switch {
 		case !sc.Kpos:
-			// K == 0: cursor = off0 + A
-			if off.A < sc.Base-1 {
+			// K == 0: cursor = off0 + A; with Base == 0 the dispatched byte itself broke the scan
+			if off.A < 0 {
 				if off.A == -1 {
 					o.Redispatch = true
 				} else {
 					o.Kind = "undecided"
+					o.Why = "cursor before the dispatched byte"
+				}
+			}
+			if sc.Base == 0 {
+				for p := 1; p <= off.A; p++ {
+					o.Items = append(o.Items, item(p))
+				}
+			} else {
+				if off.A < sc.Base-1 && off.A >= 0 {
+					o.Kind = "undecided"
 					o.Why = "cursor before scan base"
 				}
-			}
-			for j := 0; j < r; j++ {
-				if j == 0 && sc.Outcome == 'B' {
-					it := ConsItem{Rep: '1'}
-					it.Set[sc.Break] = true
-					o.Items = append(o.Items, it)
-				} else {
-					o.Items = append(o.Items, any1)
-				}
+				extra(r)
 			}
 		case r >= 0:
-			pass.Rep = '+'
-			o.Items = append(o.Items, pass)
-			for j := 0; j < r; j++ {
-				if j == 0 && sc.Outcome == 'B' {
-					it := ConsItem{Rep: '1'}
-					it.Set[sc.Break] = true
-					o.Items = append(o.Items, it)
-				} else {
-					o.Items = append(o.Items, any1)
-				}
+			if sc.Base == 0 {
+				pass.Rep = '*' // K-1 >= 0 passing bytes after the dispatched one
+			} else {
+				pass.Rep = '+'
 			}
-		case r == -1:
+			o.Items = append(o.Items, pass)
+			extra(r)
+		case r == -1 && sc.Base >= 1:
 			pass.Rep = '*'
 			o.Items = append(o.Items, pass)
 		default:
 			o.Kind = "undecided"
 			o.Why = "cursor falls behind the scanned bytes"
 		}
-		if sc.Outcome == 'X' {
+		if sc.Outcome == 'X' && o.Kind == "next" && !o.EndsBuffer {
 			o.EndsBuffer = r >= 0
 			o.OffExact = r == 0
 		}
@@ -932,6 +974,9 @@ func (m *Machine) outcome(e Exit, eof bool) Outcome {
 		}
 	}
 	keep[m.recvObj] = Val{K: kRecv}
+	for _, o := range m.namedResults {
+		keep[o] = zeroVal(o.Type())
+	}
 	keep[m.bufVar] = Val{K: kBuf, A: 0, B: -1}
 	if m.lastVar != nil {
 		keep[m.lastVar] = vTop
